@@ -168,6 +168,10 @@ class Walker:
             by = n.args[1]
             two = by.is_const() and ((op in ("udiv", "urem") and by.cval() == 2) or (op in ("lshr", "and") and by.cval() == 1))
             if not two:
+                # the operands are still ordinary values: their own obligations are recorded first
+                for a in n.args:
+                    for _ in self.value(a, C):
+                        pass
                 raise Failure("division / remainder other than by two")
             for C1, a in self.value(n.args[0], C):
                 C2, h, l = self.halves(a, C1)
@@ -232,12 +236,17 @@ def analyse(root, pre, goals):
     w = Walker(pre)
     paths = 0
     fails = []
-    for C, r in w.value(root, list(pre)):
-        paths += 1
-        for what, ok in goals(w, C, r):
-            w.obligations += 1
-            if not ok:
-                fails.append((what, "on the path with result %r" % r))
+    incomplete = None
+    try:
+        for C, r in w.value(root, list(pre)):
+            paths += 1
+            for what, ok in goals(w, C, r):
+                w.obligations += 1
+                if not ok:
+                    fails.append((what, "on the path with result %r" % r))
+    except Failure as e:
+        # the function left the linear fragment; what was established before that point stands
+        incomplete = str(e)
     for what, node, C in w.failures:
         fails.append((what, "at %s" % node.pretty()[:160]))
-    return dict(paths=paths, obligations=w.obligations, failures=fails, walker=w)
+    return dict(paths=paths, obligations=w.obligations, failures=fails, walker=w, incomplete=incomplete)
